@@ -8,7 +8,7 @@ from vf.engine import Violation, InvalidCase
 from vf.fixtures import maybe_complete, with_done, check, expect_raises, sized_lists, wone_of
 
 PROPERTY = "C11"
-BUDGET = {"quick": 700, "thorough": 2500}
+BUDGET = {"quick": 1500, "thorough": 4500}
 RULE = ("A grid shape (line, 2-D, 3-D, degenerate zero-extent axes in any position, non-cubic) and a history (1-14 ops) of "
         "add(name, source)/remove(name)/remove(unknown) over 4 names. Sources: callable f(pos, cells), list, numpy int/float "
         "array, ConstantGenerator, LookupGenerator over nested lists or numpy arrays; values int / dyadic float / str / tuple / list (also a sequence-valued constant with one entry per cell), "
@@ -18,7 +18,8 @@ RULE = ("A grid shape (line, 2-D, 3-D, degenerate zero-extent axes in any positi
         "after the add; 'pos', the row count and the set of columns must be untouched; unknown removal -> "
         "ComponentNotFoundError. Non-trivial: >= 2 populated axes of different extent with a position-dependent source "
         "and >= 2 components alive when one is removed. While F4 is live lookup tables are generated with full 3-level "
-        "nesting only (tables of the world's own dimensionality on line/2-D worlds are excluded and counted).")
+        "nesting only (tables of the world's own dimensionality on line/2-D worlds are excluded and counted)."
+        " Added in rounds 18-24: generators that compute beyond 64 bits from the coordinates they are handed; one-element sequences as values; component names that are integers, '', tuples and frozensets of other names; an operation 'use' (whole-world and small neighbourhood queries whose results are edited); the model may be marked complete.")
 ASSUMPTIONS = ["a name in use is not re-added (replacement is not claimed)", "values avoid None/NaN (pandas rewrites them)",
                "|values| < 2^45 so that pandas keeps native dtypes"]
 LIVE = set()
@@ -364,7 +365,22 @@ def strategy(tier):
         {"op": "add", "name": 0, "again": True, "src": {"kind": kind_, "mult": m_ * (8 if vt == ("int", "float") else 1), "off": o_ * (8 if vt == ("int", "float") else 1),
                                                        "vtype": vt[1], "lowdim": False, "numpy": True}}]),
         small_shape, st.sampled_from(["array", "array", "list", "callable"]), pair, st.sampled_from([1, 3]), st.integers(0, 20))
-    return with_done(wone_of(*([small] * 13 + [refresh, many])))
+    def fixed_src(kind_, vt_):
+        return st.fixed_dictionaries({"kind": kind_, "mult": st.sampled_from([1, 3, -2]), "off": st.integers(-20, 20), "vtype": vt_,
+                                      "lowdim": st.booleans(), "numpy": st.just(False), "derive": st.just(False), "functor": st.just("function"),
+                                      "other": st.just(0), "drop_at": st.just(None)})
+    # families built by construction (so that detection does not hinge on one seed): lookup tables whose entries are composite values,
+    # and one-element sequences in worlds whose other axes have extent 1
+    lookupc = st.builds(lambda s_, a, b: dict(s_, ops=[{"op": "add", "name": 0, "src": a, "again": False}, {"op": "add", "name": 1, "src": b, "again": False}]),
+                        shape, fixed_src(st.just("lookup"), st.sampled_from(["tuple", "dict", "list2", "mixed", "seq1"])),
+                        fixed_src(st.sampled_from(["lookup", "callable", "list"]), st.sampled_from(["tuple", "int", "seq1"])))
+    thin_shape = st.builds(lambda w, k: [{"kind": "grid", "w": w, "h": 1, "d": 0}, {"kind": "discrete", "w": w, "h": 1, "d": 1},
+                                         {"kind": "discrete", "w": w, "h": 0, "d": 1}, {"kind": "discrete", "w": w, "h": 1, "d": 0},
+                                         {"kind": "line", "w": w, "h": 0, "d": 0}][k], st.integers(1, 6), st.integers(0, 4))
+    thin = st.builds(lambda s_, a, b: dict(s_, ops=[{"op": "add", "name": 0, "src": a, "again": False}, {"op": "add", "name": 1, "src": b, "again": False}]),
+                     thin_shape, fixed_src(st.sampled_from(["list", "list", "callable", "const"]), st.just("seq1")),
+                     fixed_src(st.sampled_from(["list", "array"]), st.sampled_from(["int", "seq1", "tuple"])))
+    return with_done(wone_of(*([small] * 10 + [refresh, refresh, many, lookupc, thin])))
 
 
 def _small(shape, op):
